@@ -1,4 +1,5 @@
 use crate::{
+    entity,
     registry,
     world::World,
 };
@@ -38,17 +39,41 @@ where
     /// This method reuses the existing allocations for the clone. In some cases, this can be more
     /// efficient than calling `clone()` directly.
     fn clone_from(&mut self, source: &Self) {
-        // SAFETY: `identifier_map` will be outlived by both the current and the source `World`,
-        // and therefore will be outlived by the archetypes it references as well.
-        let identifier_map = unsafe { self.archetypes.clone_from(&source.archetypes) };
-        // SAFETY: `identifier_map` is guaranteed to contain an entry for every archetype in the
-        // world, meaning there will be an entry for every archetype identifier referenced in
-        // `self.entity_allocator`.
+        /// Empties the world if cloning the entities is interrupted by a panic in a component's
+        /// `Clone` or `Drop` implementation.
+        ///
+        /// At that point some archetypes hold the new rows, some the old ones, and the entity
+        /// allocator matches neither. All rows are forgotten (leaking their components) and the
+        /// allocator is reset, which leaves a valid, empty world behind.
+        struct Reset<'a, Registry, Resources>(&'a mut World<Registry, Resources>)
+        where
+            Registry: registry::Registry;
+
+        impl<Registry, Resources> Drop for Reset<'_, Registry, Resources>
+        where
+            Registry: registry::Registry,
+        {
+            fn drop(&mut self) {
+                self.0.archetypes.forget_rows();
+                self.0.entity_allocator = entity::Allocator::new();
+                self.0.len = 0;
+            }
+        }
+
+        let reset = Reset(self);
+        // SAFETY: `identifier_map` outlives both the original and cloned archetypes' use of it.
+        let identifier_map = unsafe { reset.0.archetypes.clone_from(&source.archetypes) };
+        // SAFETY: `identifier_map` contains an entry for every archetype referenced by
+        // `source.entity_allocator`.
         unsafe {
-            self.entity_allocator
+            reset
+                .0
+                .entity_allocator
                 .clone_from(&source.entity_allocator, &identifier_map);
         }
-        self.len = source.len;
+        reset.0.len = source.len;
+        // The entities have been cloned completely.
+        core::mem::forget(reset);
 
         self.resources.clone_from(&source.resources);
     }
